@@ -106,6 +106,36 @@ pub enum Sel {
     FrTh,
     /// `Jul`, written `Jul:` in the defect named by C07
     JulFrTh,
+    /// `Dec 20-Jun 12`: dated range wrapping over new year, today is its last day
+    Dec20ToJun12,
+    /// `Jun 13-Jan 10`: dated range wrapping over new year, starts tomorrow
+    Jun13ToJan10,
+    /// `week 23-24`
+    Week23To24,
+    /// `week 40-52`: ends on the last week of a 52-week year
+    Week40To52,
+    /// `week 50-53`
+    Week50To53,
+    /// `week 52-02`: wrapping week range
+    Week52To02,
+    /// `Nov-Dec`
+    NovDec,
+    /// `Dec`
+    Dec,
+    /// `Sa-Su`
+    SaSu,
+    /// `Su`
+    Su,
+    /// `2024-9999`
+    Y2024To9999,
+    /// `9999`
+    Y9999,
+    /// `1900-2024`
+    Y1900To2024,
+    /// `Mo-Tu`
+    MoTu,
+    /// `We-Su`
+    WeSu,
 }
 
 impl Sel {
@@ -163,6 +193,27 @@ impl Sel {
                 ds.monthday.push(MonthdayRange::Month { range: Month::July..=Month::July, year: None });
                 ds.weekday.push(wd(Weekday::Fri, Weekday::Thu));
             }
+            Sel::Dec20ToJun12 => ds.monthday.push(MonthdayRange::Date {
+                start: (Date::md(20, Month::December), DateOffset::default()),
+                end: (Date::md(12, Month::June), DateOffset::default()),
+            }),
+            Sel::Jun13ToJan10 => ds.monthday.push(MonthdayRange::Date {
+                start: (Date::md(13, Month::June), DateOffset::default()),
+                end: (Date::md(10, Month::January), DateOffset::default()),
+            }),
+            Sel::Week23To24 => ds.week.push(WeekRange { range: WeekNum(23)..=WeekNum(24), step: 1 }),
+            Sel::Week40To52 => ds.week.push(WeekRange { range: WeekNum(40)..=WeekNum(52), step: 1 }),
+            Sel::Week50To53 => ds.week.push(WeekRange { range: WeekNum(50)..=WeekNum(53), step: 1 }),
+            Sel::Week52To02 => ds.week.push(WeekRange { range: WeekNum(52)..=WeekNum(2), step: 1 }),
+            Sel::NovDec => ds.monthday.push(MonthdayRange::Month { range: Month::November..=Month::December, year: None }),
+            Sel::Dec => ds.monthday.push(MonthdayRange::Month { range: Month::December..=Month::December, year: None }),
+            Sel::SaSu => ds.weekday.push(wd(Weekday::Sat, Weekday::Sun)),
+            Sel::Su => ds.weekday.push(wd(Weekday::Sun, Weekday::Sun)),
+            Sel::Y2024To9999 => ds.year.push(YearRange { range: Year(2024)..=Year(9999), step: 1 }),
+            Sel::Y9999 => ds.year.push(YearRange { range: Year(9999)..=Year(9999), step: 1 }),
+            Sel::Y1900To2024 => ds.year.push(YearRange { range: Year(1900)..=Year(2024), step: 1 }),
+            Sel::MoTu => ds.weekday.push(wd(Weekday::Mon, Weekday::Tue)),
+            Sel::WeSu => ds.weekday.push(wd(Weekday::Wed, Weekday::Sun)),
             Sel::Su2 => ds.weekday.push(WeekDayRange::Fixed {
                 range: Weekday::Sun..=Weekday::Sun,
                 offset: 0,
@@ -187,6 +238,14 @@ impl Sel {
             Sel::Ph => offset == 0 || offset == 1,
             Sel::Jul | Sel::Y2025 => false,
             Sel::Su2 => offset == -3,
+            Sel::Dec20ToJun12 => offset <= 0,
+            Sel::Jun13ToJan10 => offset >= 1,
+            Sel::Week23To24 | Sel::Y2024To9999 | Sel::Y1900To2024 => true,
+            Sel::Week40To52 | Sel::Week50To53 | Sel::Week52To02 | Sel::NovDec | Sel::Dec | Sel::Y9999 => false,
+            Sel::SaSu => offset == -3 || offset == 3,
+            Sel::Su => offset == -3,
+            Sel::MoTu => offset == -2 || offset == -1,
+            Sel::WeSu => offset == -3 || offset >= 0,
             Sel::SaTu => offset <= -1 || offset == 3,
             Sel::NovFeb | Sel::JulFrTh => false,
             Sel::JunWe | Sel::Y2024We => offset == 0,
